@@ -40,15 +40,34 @@ def static_interpreters(ctx, rep, clause):
                 map_var = n.targets[0].id
         if map_var is None:
             raise AnalysisError(f'{fq}: no `x = parse_static_mods(...)` found')
+        from .C02 import _Provenance
+        prov = _Provenance(program, f)
+        cst = Canon(f.node)
+
+        def const_set(e):
+            e = cst.resolve(e)
+            if isinstance(e, (ast.List, ast.Tuple, ast.Set)) and all(isinstance(x, ast.Constant) for x in e.elts):
+                return {x.value for x in e.elts}
+            if isinstance(e, ast.Dict) and all(isinstance(x, ast.Constant) for x in e.keys):
+                return {x.value for x in e.keys}
+            return None
         for n in walk_own(f.node):
+            # the special targets fetched from the rule map: .get('N-Term') / .get(key) with key over a literal tuple
             if isinstance(n, ast.Call) and isinstance(n.func, ast.Attribute) and n.func.attr == 'get' and n.args and \
-                    isinstance(n.args[0], ast.Constant) and isinstance(n.args[0].value, str) and \
                     norm_stmt(n.func.value) == map_var:
-                gets.add(n.args[0].value)
-            if isinstance(n, ast.If) and isinstance(n.test, ast.Compare) and isinstance(n.test.ops[0], ast.In) and \
-                    isinstance(n.test.comparators[0], (ast.List, ast.Tuple, ast.Set)) and \
-                    any(isinstance(s, ast.Continue) for s in n.body):
-                skip = {x.value for x in n.test.comparators[0].elts if isinstance(x, ast.Constant)}
+                gets |= {k for k in prov.keys_of(n.args[0]) if isinstance(k, str)}
+            # the residue loop leaves the special targets out: `if aa in [...]: continue` or `if aa not in (...): <body>`
+            if isinstance(n, ast.If) and isinstance(n.test, ast.Compare) and len(n.test.ops) == 1 and \
+                    isinstance(n.test.ops[0], (ast.In, ast.NotIn)):
+                cs = const_set(n.test.comparators[0])
+                key_vars = {lp.target.elts[0].id for lp in ast.walk(f.node) if isinstance(lp, ast.For) and
+                            norm_stmt(lp.iter) == f'{map_var}.items()' and isinstance(lp.target, ast.Tuple) and
+                            isinstance(lp.target.elts[0], ast.Name)}
+                if cs is not None and isinstance(n.test.left, ast.Name) and n.test.left.id in key_vars:
+                    skipping = (isinstance(n.test.ops[0], ast.In) and any(isinstance(s_, ast.Continue) for s_ in n.body)) \
+                        or (isinstance(n.test.ops[0], ast.NotIn) and not any(isinstance(s_, ast.Continue) for s_ in n.body))
+                    if skipping:
+                        skip = cs
             if isinstance(n, ast.Call) and isinstance(n.func, ast.Name) and n.func.id == 'parse_static_mods' and n.args:
                 source = Canon(f.node).text(n.args[0])
             if isinstance(n, ast.Call) and isinstance(n.func, ast.Attribute) and n.func.attr == 'count' and \
@@ -100,40 +119,68 @@ def condense_unfiltered(ctx, rep, clause):
     rep.floor('SIB-static', 'residue writes in condense_static_mods', k, 1)
 
 
+def _additions(program, f):
+    """(accumulator name, source expression, node) for every "add the counts of <source> to <accumulator>" in f:
+    `for k, v in SRC.items(): ACC[k] = ACC.get(k, 0) + ...`, or a call of a private helper that does exactly that with
+    its first two parameters"""
+    out = []
+
+    def loop_add(fn_node):
+        res = []
+        for n in ast.walk(fn_node):
+            if isinstance(n, ast.For) and isinstance(n.iter, ast.Call) and isinstance(n.iter.func, ast.Attribute) and \
+                    n.iter.func.attr == 'items':
+                for st in ast.walk(n):
+                    tgt = None
+                    if isinstance(st, ast.Assign) and isinstance(st.targets[0], ast.Subscript):
+                        tgt = st.targets[0]
+                    elif isinstance(st, ast.AugAssign) and isinstance(st.target, ast.Subscript):
+                        tgt = st.target
+                    if tgt is not None and isinstance(tgt.value, ast.Name):
+                        res.append((tgt.value.id, n.iter.func.value, st))
+        return res
+    out += loop_add(f.node)
+    for n in ast.walk(f.node):
+        if isinstance(n, ast.Call) and isinstance(n.func, ast.Name) and n.func.id.startswith('_') and len(n.args) >= 2 and \
+                isinstance(n.args[0], ast.Name):
+            g = program.find_func(f'{f.module.name}:{n.func.id}')
+            if g is None or g.fq == f.fq or len(g.params) < 2:
+                continue
+            inner = loop_add(g.node)
+            if any(acc == g.params[0].name and isinstance(src, ast.Name) and src.id == g.params[1].name
+                   for acc, src, _st in inner):
+                out.append((n.args[0].id, n.args[1], n))
+    return out
+
+
 def isotope_control(ctx, rep, clause):
+    from ..guards import specialise
     an, program = ctx.analyzer, ctx.program
     f = program.func('peptacular.chem.chem_calc:_sequence_comp')
-    blk = None
-    for n in walk_own(f.node):
-        if isinstance(n, ast.If) and norm_stmt(n.test) in ('use_isotope_on_mods', 'use_isotope_on_mods is True'):
-            blk = n
-    if blk is None:
-        raise AnalysisError('_sequence_comp: the use_isotope_on_mods branch was not found')
-
-    def substituted(block):
-        out = set()
-        for st in block:
-            if isinstance(st, ast.Assign) and isinstance(st.value, ast.Call) and \
-                    norm_stmt(st.value.func) == 'apply_isotope_mods_to_composition' and \
-                    isinstance(st.targets[0], ast.Name) and st.value.args and \
-                    norm_stmt(st.value.args[0]) == st.targets[0].id and \
-                    len(st.value.args) > 1 and norm_stmt(st.value.args[1]).endswith('.isotope_mods'):
-                out.add(st.targets[0].id)
-        return out
-    a, b = substituted(blk.body), substituted(blk.orelse)
-    # which accumulator is which is decided by what is added to it, not by its name: the residue accumulator is the
-    # one that receives the amino-acid compositions
-    residue_acc = set()
-    for n in walk_own(f.node):
-        if isinstance(n, ast.For) and norm_stmt(n.iter).endswith('.sequence') and \
-                any(isinstance(x, ast.Name) and x.id == 'AA_COMPOSITIONS' for x in ast.walk(n)):
-            for st in ast.walk(n):
-                if isinstance(st, (ast.Assign, ast.AugAssign)):
-                    tg = st.targets[0] if isinstance(st, ast.Assign) else st.target
-                    if isinstance(tg, ast.Subscript) and isinstance(tg.value, ast.Name):
-                        residue_acc.add(tg.value.id)
+    c = Canon(f.node)
+    # which accumulators are relabelled, per value of the switch (branches pruned under that value)
+    labelled = {}
+    call_nodes = {}
+    for flag in (True, False):
+        got = set()
+        for st in specialise(f.node.body, GuardEval({'use_isotope_on_mods': flag}, c.aliases())):
+            for x in ast.walk(st):
+                if isinstance(x, ast.Call) and norm_stmt(x.func) == 'apply_isotope_mods_to_composition' and x.args and \
+                        isinstance(x.args[0], ast.Name):
+                    ok_lab = len(x.args) > 1 and norm_stmt(c.resolve(x.args[1])).endswith('.isotope_mods')
+                    if ok_lab:
+                        got.add(x.args[0].id)
+                        call_nodes[x.args[0].id] = x
+        labelled[flag] = got
+    if not labelled[True]:
+        raise AnalysisError('_sequence_comp: no relabelling of an accumulator with the annotation\'s isotope labels found')
+    adds = _additions(program, f)
+    residue_acc = {acc for acc, src, _n in adds if any(isinstance(y, ast.Name) and y.id == 'AA_COMPOSITIONS'
+                                                         for y in ast.walk(c.resolve(src)))}
     if len(residue_acc) != 1:
         raise AnalysisError('_sequence_comp: the accumulator of the residue compositions was not recognised')
+    a, b = labelled[True], labelled[False]
+    blk = next(iter(call_nodes.values()))
     ob(rep, 'SIB-isotope', f.fq, 'with use_isotope_on_mods both the sequence and the modification composition are '
        'labelled', len(a) == 2 and residue_acc <= a, f'{len(a)} accumulators', f'labelled: {sorted(a)}',
        f.loc(blk), clause)
@@ -144,25 +191,21 @@ def isotope_control(ctx, rep, clause):
     # accumulator that is labelled only under use_isotope_on_mods -- never in the one that is always labelled
     mod_acc = sorted(a - b)
     k = 0
-    cf = Canon(f.node)
-    for n in walk_own(f.node):
-        if isinstance(n, ast.For) and 'mod_comp(' in norm_stmt(n.iter):
-            for st in n.body:
-                if isinstance(st, ast.Assign) and isinstance(st.targets[0], ast.Subscript):
-                    k += 1
-                    tgt = norm_stmt(st.targets[0].value)
-                    ob(rep, 'SIB-isotope', f.fq, f'`{cf.text(st)}` (atoms of a modification) goes to the modification '
-                       f'accumulator', [tgt] == mod_acc, f'{tgt}',
-                       f'atoms of a modification are added to `{tgt}`, which is isotope-labelled unconditionally: a '
-                       f'global label reaches atoms inside that modification although use_isotope_on_mods is off',
-                       f.loc(st), clause)
-    rep.floor('SIB-isotope', 'modification-composition accumulations in _sequence_comp', k, 9)
-    encl = None
-    for n in walk_own(f.node):
-        if isinstance(n, ast.If) and blk in n.body:
-            encl = norm_stmt(n.test)
+    for acc, src, node in adds:
+        if any(isinstance(y, ast.Call) and norm_stmt(y.func) == 'mod_comp' for y in ast.walk(c.resolve(src))):
+            k += 1
+            ob(rep, 'SIB-isotope', f.fq, f'atoms of a modification (`{norm_stmt(src)[:50]}`) go to the modification '
+               f'accumulator', [acc] == mod_acc, 'the accumulator labelled only on request',
+               f'atoms of a modification are added to an accumulator that is isotope-labelled unconditionally: a '
+               f'global label reaches atoms inside that modification although use_isotope_on_mods is off',
+               f.loc(node), clause)
+    rep.floor('SIB-isotope', 'modification-composition accumulations in _sequence_comp', k, 6)
+    # the relabelling happens only when the annotation carries isotope labels
+    from ..guards import dominating_tests
+    encl = [norm_stmt(c.resolve(t)) for t, _p in dominating_tests(f.node, blk)]
     ob(rep, 'SIB-isotope', f.fq, 'the substitution happens only when the annotation carries isotope labels',
-       encl == 'annotation.has_isotope_mods()', f'{encl}', f'guarded by `{encl}`', f.loc(blk), clause)
+       any(t.endswith('.has_isotope_mods()') or '.isotope_mods is not None' in t for t in encl), f'{encl}',
+       f'guarded by `{encl}`', f.loc(blk), clause)
     n = add_fwd(rep, forwarding(an, program, ['use_isotope_on_mods', 'isotope_mods'],
                                 callers={'peptacular.mass_calc:mass', 'peptacular.mass_calc:comp_mass',
                                          'peptacular.mass_calc:comp'}), clause)
